@@ -139,4 +139,3 @@ func queryName(kind string) string {
 	}
 	return kind
 }
-
